@@ -1318,10 +1318,20 @@ impl Compiler {
                 if register != value_register {
                     self.push_op(Copy, &[register, value_register]);
                 }
+                if value_result.is_temporary {
+                    // The value has been copied, its temporary register is no longer needed
+                    self.pop_register()?;
+                }
                 CompileNodeOutput::with_assigned(register)
             }
             ResultRegister::Any => value_result,
-            ResultRegister::None => CompileNodeOutput::none(),
+            ResultRegister::None => {
+                if value_result.is_temporary {
+                    // Nobody else will return the value's temporary register (e.g. `m.key = value`)
+                    self.pop_register()?;
+                }
+                CompileNodeOutput::none()
+            }
         };
 
         self.pop_span();
